@@ -256,7 +256,7 @@ def extra_checks(ctx, cases_, impl_lines, model_lines_):
     from gen import xcheck
     res = xcheck.borrow(ctx, "C09", "encoding never panics, whatever the record's message does while it is formatted",
                         lambda c: c[0] in (6, 9), n=300)
-    return res or huge_max_checks(ctx) or wide_spec_checks(ctx)
+    return res or huge_max_checks(ctx) or wide_spec_checks(ctx) or thread_exit_checks(ctx)
 
 
 def huge_max_checks(ctx):
@@ -390,3 +390,53 @@ def wide_spec_checks(ctx, vh=None):
             return out
     ctx.setdefault("xcheck", {})["unreachable_min_widths_into_failing_sink"] = len(meta)
     return out
+
+
+def thread_exit_checks(ctx, vh=None):
+    """The record is encoded while its thread exits (from the destructor of a thread-local of the application), after the
+    same pattern was encoded once on the live thread - in both orders of registration of the application's thread-local
+    and the thread's first encode.  "Encoding any record never panics" and the width law do not depend on when in a
+    thread's life the record is logged: the output must be what the live thread wrote for the same case (thread-id
+    formatters: no panic, same shape).  Not asked for: local-zone dates and MDC lookups - chrono's per-thread zone cache
+    and log_mdc's map are thread-locals of those crates and are gone at that point (on the unchanged tree too)."""
+    vc = ctx["vc"]
+    vh = vh or ctx["vh"]
+    pats = ["{m}", "{m:>12}", "{m:<12}|", "{m:>12.5}", "{m:-<9.3}", "{l:>7}", "{l:*>7.2} {t:>8}", "[{({l} {m}):>20}]", "{h({l:>6} {m:>10})}",
+            "{M:>10} {f:>8}:{L:>5}", "{T:>10}", "{P:>9}", "{pid}", "{n}", "{D({m:>9})}{R(x)}", "{d(%Y-%m)(utc):>10}", "{h({m:>4.2})} {l}",
+            "{({m:>3}|{l:>6}):>14}", "{m:é>11}", "{t:>6.6}{m:>6.6}"]
+    idpats = ["{i}", "{I:>18}", "{thread_id} {tid}", "{i:>12} {m:>7}"]
+    cs, meta = [], []
+    k = 0
+    for p in pats + idpats:
+        for kk in range(4):
+            live = mk_str(p, k)
+            live[0] = 1
+            live[3] = []
+            ex = [8] + live[1:]
+            cs += [live, ex, list(ex)]          # the exit case twice: both registration orders
+            meta.append((p, p in idpats))
+            k += 1
+    lines = [vc.show(c) for c in cs]
+    res = vc.run_lines([vh], lines, timeout_per_batch=600)
+    n = 0
+    for j, (p, idp) in enumerate(meta):
+        try:
+            live = vc.parse(res[3 * j])[3]
+        except Exception:
+            continue
+        if not isinstance(live, list):
+            continue            # not encodable on a live thread either (outside this check)
+        for r, ln in ((res[3 * j + 1], lines[3 * j + 1]), (res[3 * j + 2], lines[3 * j + 2])):
+            try:
+                v = vc.parse(r)
+                got = v[3] if isinstance(v, list) and len(v) == 4 else v
+            except Exception:
+                got = r[:120]
+            n += 1
+            ok = isinstance(got, list) and (idp and [type(e) for e in got] == [type(e) for e in live] or got == live)
+            if not ok:
+                return [("a record encoded while its thread exits (from a thread-local destructor, after one encode on the live "
+                         "thread): pattern %s wrote %r, on the live thread the same case wrote %r" % (p, vc.jsonable(got), vc.jsonable(live)),
+                         {"case_line": ln, "live_case_line": lines[3 * j]})]
+    ctx.setdefault("xcheck", {})["records_encoded_at_thread_exit"] = n
+    return []
